@@ -49,6 +49,8 @@ def worlds(tier):
             w.W("cond3-1cpu-FIFO", w.fixed_times(w.cond3()), w.C1, "FIFO", split=7, weight=60),
             w.W("cond-uneven-2cpu-EDF", w.fixed_times(w.cond_uneven()), w.C2, "EDF", split=7, weight=60),
             w.W("cond2-1cpu-EDF", w.cond2(), w.C1, "EDF", split=8, weight=300),
+            w.W("cond2-havoc-lookahead-retract-delta1", w.fixed_times(w.cond2()), w.C2, "HAVOC", split=10,
+                havoc=dict(max_delta=1, lookahead=["sym", 0, 3], retract=True, max_unplaced=0, max_replans=1, first_pool_only=True), tasks=small(CJ), weight=500),
             w.W("cond-tail-havoc-release_taskgraphs", w.fixed_times(w.cond_tail()), w.C2, "HAVOC", split=9,
                 havoc=dict(hv, release_taskgraphs=True, max_unplaced=0, first_pool_only=True, future=False), tasks=small(("C", "a", "b", "J", "Z")), weight=300),
             w.W("fork-child-release-times-EDF", w.fork(), w.C2, "EDF", split=8, tasks={"B": {"release": "sym"}, "C": {"release": "sym"}}, weight=200),
